@@ -1,11 +1,12 @@
 import Juniper.Proofs.TreeHistory
 import Juniper.Proofs.TreeSlots
 import Juniper.Proofs.TreeSpecAdequacy
+import Juniper.Proofs.TreeCost
 /-!
 # C03 — the tree stays balanced and half-full: O(log n) work, no retained garbage (property theorems)
 -/
 namespace Juniper.Props.C03
-open Juniper.Gen.Tree Juniper.Model.BTree Juniper.Proofs.Tree
+open Juniper.Gen.Tree Juniper.Gen.TreeAccess Juniper.Model.BTree Juniper.Proofs.Tree
 
 variable {K V : Type}
 
@@ -26,17 +27,14 @@ theorem zeroing_statements_present :
     overfillClearsKeys = true ∧ overfillClearsValues = true ∧ overfillClearsChildren = true ∧
     mergeZeroesRight = true := by decide
 
-/-- the linear in-node search makes at most one comparison per stored key. -/
+/-- **In one node**: the comparator calls of one `searchNode` call are the regenerated per-iteration count
+(`searchLoopCompares`, tied to 1 by `cost_skeleton`) times the loop iterations entered, and the iterations are
+determined by the functional `searchNode` the well-formedness proofs are about: it returns from inside iteration
+`idx` or falls out after all `n` of them — so at most one comparison per stored key. -/
 theorem searchCost_le (cmp : K → K → Int) (k : K) (kvs : List (K × V)) :
-    searchCost cmp k kvs ≤ kvs.length := by
-  induction kvs with
-  | nil => simp [searchCost]
-  | cons kv rest ih =>
-    obtain ⟨k', v'⟩ := kv
-    simp only [searchCost, List.length_cons]
-    split
-    · omega
-    · split <;> omega
+    searchCost cmp k kvs = min ((searchNode cmp k kvs).1 + 1) kvs.length ∧ searchCost cmp k kvs ≤ kvs.length := by
+  refine ⟨?_, Juniper.Proofs.Tree.searchCost_le cmp k kvs⟩
+  simp [searchCost, searchIters, cost_skeleton.1.2.2]
 
 /-- The empty tree is well formed. -/
 theorem wf_new (cmp : K → K → Int) : WF cmp (Tree.empty : Tree K V) := wf_empty cmp
@@ -112,13 +110,39 @@ example : ∃ t' : Tree Int Int,
   exact ⟨t', h1, h2.wf, height_pos_of_large h2.wf (by rw [hlen]; decide), by rw [h2.wf.size, hlen]; rfl,
     (depth_bound _ t' h2.wf).2⟩
 
-/-- A `Get`/`Contains` makes at most `maxKVs` (= 15) key comparisons per level. -/
+/-- **"At most 15 key comparisons in each level"**, for `Get` and for `Contains`: the lookup visits at most one
+node per level (`levelCosts … .length ≤ height + 1`), makes at most `maxKVs` = 15 comparator calls in each visited
+node, hence at most `15 · levels` in total. How many comparator calls one loop iteration of `searchNode` makes and how
+many `searchNode` calls one level of `Get` / `Contains` makes are regenerated from `btree.go`
+(`Gen.TreeAccess.searchLoopCompares`, `getLoopSearches`, `containsLoopSearches`); that nothing else in the three
+functions compares is `cost_skeleton`, used in the proof. -/
 theorem search_cost (cmp : K → K → Int) (t : Tree K V) (k : K) (hw : WF cmp t) :
-    (lookupCost cmp k t.root : Int) ≤ maxKVs * (height t.root + 1) ∧ maxKVs = 15 := by
+    ((levelCosts getLoopSearches cmp k t.root).length ≤ height t.root + 1 ∧
+      (∀ c ∈ levelCosts getLoopSearches cmp k t.root, (c : Int) ≤ maxKVs) ∧
+      (getCost cmp k t.root : Int) ≤ maxKVs * (height t.root + 1)) ∧
+    ((levelCosts containsLoopSearches cmp k t.root).length ≤ height t.root + 1 ∧
+      (∀ c ∈ levelCosts containsLoopSearches cmp k t.root, (c : Int) ≤ maxKVs) ∧
+      (containsCost cmp k t.root : Int) ≤ maxKVs * (height t.root + 1)) ∧ maxKVs = 15 := by
   obtain ⟨h, hbal, hmax, hroot⟩ := hw.bal
   have hh := height_of_bal t.root h hbal
+  obtain ⟨_, ⟨_, _, hg, _⟩, ⟨_, _, hc, _⟩⟩ := cost_skeleton
+  have eg : ((getLoopSearches : Nat) : Int) = 1 := by rw [hg]; rfl
+  have ec : ((containsLoopSearches : Nat) : Int) = 1 := by rw [hc]; rfl
   rw [hh]
-  exact ⟨lookupCost_le cmp k t.root h hbal hmax, by decide⟩
+  refine ⟨⟨levelCosts_length_le _ cmp k t.root h hbal, fun c hc' => ?_, ?_⟩,
+    ⟨levelCosts_length_le _ cmp k t.root h hbal, fun c hc' => ?_, ?_⟩, by decide⟩
+  · have := levelCosts_le _ cmp k t.root h hbal hmax c hc'; rw [eg, Int.one_mul] at this; exact this
+  · have := levelCosts_sum_le getLoopSearches cmp k t.root h hbal hmax; rw [eg, Int.one_mul] at this; exact this
+  · have := levelCosts_le _ cmp k t.root h hbal hmax c hc'; rw [ec, Int.one_mul] at this; exact this
+  · have := levelCosts_sum_le containsLoopSearches cmp k t.root h hbal hmax; rw [ec, Int.one_mul] at this; exact this
+
+/-- non-vacuity of `search_cost`, and tightness of the per-level bound: in a full leaf (15 keys) a lookup of a key
+beyond the last one makes exactly 15 comparisons, in one level. -/
+example : let x : Node Int Int := .mk 0 ((List.range 15).map fun (i : Nat) => ((i : Int), (0 : Int))) []
+    levelCosts containsLoopSearches (fun a b => a - b) 99 x = [15] ∧ getCost (fun a b => a - b) 99 x = 15 ∧
+    getCost (fun a b => a - b) 0 x = 1 ∧ getCost (fun a b => a - b) 7 x = 8 := by
+  simp only [getCost, levelCosts]
+  decide
 
 /-- Every key is reachable on exactly one root-to-leaf search path: the in-order key sequence is
 strictly ascending (so no key occurs twice), and the search path of any stored key ends at its entry. -/
